@@ -7,23 +7,22 @@ P = {
     "claimed": True,
     "coq_targets": ["Properties/C02.vo", "Run/Eval_C02.vo"],
     "theorems_module": "Properties.C02",
-    "theorems": ["C02_find_is_most_specific", "C02_repaired_find_is_most_specific",
-                 "C02_tree_refines_machine", "C02_tree_find_is_most_specific", "C02_tree_repaired_find_is_most_specific",
-                 "C02_F1_refuted", "C02_nonvacuous",
-                 "C02_order_independent", "C02_answer_is_first_acceptable", "C02_most_specific_wins",
+    "theorems": ["C02_find_is_most_specific", "C02_tree_refines_machine", "C02_tree_find_is_most_specific",
+                 "C02_pinned_find_is_most_specific", "C02_pinned_tree_find_is_most_specific", "C02_F1_pinned_refuted",
+                 "C02_nonvacuous", "C02_order_independent", "C02_answer_is_first_acceptable", "C02_most_specific_wins",
                  "C02_no_backtracking_stops", "C02_backtracking_continues", "C02_match_decides_matches",
                  "C02_parsed_expressions_wellformed", "C02_wildcards_nonempty", "C02_escapes_are_literals",
                  "C02_default_or_norule"],
     "streams": [{
         "name": "tree", "pkg": "./internal/x/radixtree", "test": "TestVerifC02Tree",
         "overlay": dict({"internal/x/radixtree/zz_verif_c02_test.go": "c02/c02_tree_test.go"}, **_OVERLAY_GEN),
-        "eval_module": "Run.Eval_C02", "check_term": "check_tree false",
-        "n_quick": 600, "n_thorough": 15000, "shard": 60, "findings": {1: "C02-F1"},
+        "eval_module": "Run.Eval_C02", "check_term": "check_tree true",
+        "n_quick": 600, "n_thorough": 15000, "shard": 60, "findings": {},
     }, {
         "name": "repo", "pkg": "./internal/rules", "test": "TestVerifC02Repo",
         "overlay": dict({"internal/rules/zz_verif_c02_test.go": "c02/c02_repo_test.go"}, **_OVERLAY_GEN),
-        "eval_module": "Run.Eval_C02", "check_term": "check_repo false",
-        "n_quick": 400, "n_thorough": 10000, "shard": 60, "findings": {1: "C02-F1"},
+        "eval_module": "Run.Eval_C02", "check_term": "check_repo true",
+        "n_quick": 400, "n_thorough": 10000, "shard": 60, "findings": {},
     }],
     "rule": "a case = one fresh index (stream tree: 1-12 Adds on a real radixtree.Tree with the repository's values constraint "
             "and a WithBacktracking option per Add; stream repo: 1-5 rule sets of real ruleImpl/routeImpl values with real "
@@ -46,11 +45,11 @@ P = {
         "every Add carries WithBacktracking (as repository.addRulesTo does); an expression's flag is that of its last accepted Add",
     ],
     "level_text": "Proof (kernel-checked, no axioms): for every sequence of Adds (any expressions, insertion order, flags, values "
-                  "constraint), every path and every capture-independent condition, the depth-first search of the index model returns "
-                  "exactly what the declarative specification says (scan of the matching expressions by specificity, first acceptable "
-                  "value in insertion order, continue only if the failed expression allows backtracking) - for the code as it is outside "
-                  "finding C02-F1 (guard + refutation witness), for the repaired search without guard and for all conditions; lookups are "
-                  "independent of how Adds of different expressions are interleaved; wildcards are non-empty, escapes are literals, "
+                  "constraint), every path and every condition, the depth-first search of the index model returns exactly what the "
+                  "declarative specification says (scan of the matching expressions by specificity, first acceptable value in insertion "
+                  "order, continue only if the failed expression allows backtracking), unguarded since fix e897fef (the pinned behaviour "
+                  "C02-F1 is kept as guarded theorem + refutation witness); findNode of the compressed tree refines that search on every "
+                  "well-formed tree; lookups are independent of how Adds of different expressions are interleaved; wildcards are non-empty, escapes are literals, "
                   "default rule / no rule at repository level. The model is tied to radixtree.Tree and rules.repository by running both "
                   "on ~1000 generated indexes / ~16000 lookups per quick run (25000 / 400000 thorough) and comparing every Add result and "
                   "every returned value / rule id, against the machine (correspondence) and against the specification (property).",
@@ -58,8 +57,8 @@ P = {
                   "proved for findNode (compressed tree refines the machine on every well-formed tree) while Add's preservation of the tree "
                   "invariant / abstraction is validated per generated case, and Delete is not modelled. Trusted: Coq kernel/vm_compute, the Go "
                   "drivers and generators (harness/c02), rendering into Gallina. Conditions are data (capture-independent matchers); "
-                  "captures/keys are C03's. Open finding C02-F1 (free-wildcard failure consults the parent node's flag) is guarded "
-                  "(guard_F1, an over-approximation by input) and observed on every run through the corpus.",
+                  "captures/keys are C03's. Finding C02-F1 (free-wildcard failure consulted the parent node's flag) was repaired by "
+                  "fix: commit e897fef; its witness stays in the corpus, so a regression is an ordinary VIOLATION.",
     "assumptions": ["lookups never mutate the tree; the drivers use one goroutine",
                     "the repository driver builds ruleImpl/routeImpl values directly (in-package); a rename of their fields breaks the driver, not the property"],
 }
